@@ -805,3 +805,6 @@ def run(ctx: Ctx) -> None:  # noqa: F811
 
 
 FLOORS["C01-L1"] = 4
+
+EXPLANATION = EXPLANATION + (" Added while building: (L1) a length shortcut in front of a containment search of Perm is non-strict (len(patt) <= len(self) as a necessary condition, "
+                             "len(self) < len(patt) as a reason to answer no): a strict one never reports a pattern as long as the permutation.")
